@@ -321,7 +321,7 @@ func cmdStress(args []string) {
 		}
 		pool = append(pool, r)
 	}
-	g := &gq.Gen{R: rng, U: &u, Abstract: true}
+	g := &gq.Gen{R: rng, U: u.WithoutSilent(), Abstract: true}
 	for tries := 0; len(pool) < len(fixedExec)+len(introspection)+*npool && tries < *npool*30; tries++ {
 		c := g.Case(1 + rng.Intn(*depth))
 		c.Doc.Normalize()
